@@ -131,6 +131,29 @@ def handleSobs (c : Line) (l : Line) : IO Unit := do
       let ts := terms.map fun (t, rm) => (t, rm.getD i false)
       if Spec.Expr.denote conn ts probe then '1' else '0'
     IO.println s!"spec {l.id} den=ok:{String.ofList bits}"
+  else if kind == "crlf" then
+    -- trailing CR/LF changes nothing: ok stays ok; an error before the end of the base text stays
+    -- where it is; an error at the end of the base text stays at the (new) end
+    let n := (l.nat? "n").getD 0
+    let k := (l.nat? "k").getD 0
+    let want := fun (b e : String) =>
+      if b == "ok" then (if e == "ok" then e else "ok")
+      else match b.splitOn ":" with
+        | ["err", off] =>
+          (match off.toNat? with
+           | some o =>
+             if o < n then (if e == b then e else b)
+             else (match e.splitOn ":" with
+               | ["err", eo] => (match eo.toNat? with
+                  | some x => if n ≤ x ∧ x ≤ n + k then e else s!"err:{n}..{n + k}"
+                  | none => s!"err:{n}..{n + k}")
+               | _ => s!"err:{n}..{n + k}")
+           | none => e)   -- base offset itself out of range: judged by the expr case
+        | _ => e
+    IO.println s!"spec {l.id} n={n} k={k} bf={l.getD "bf"} ef={want (l.getD "bf") (l.getD "ef")} bp={l.getD "bp"} ep={want (l.getD "bp") (l.getD "ep")}"
+  else if kind == "cfgterm" then
+    -- a .config / empty-key term anywhere in the tree: NewFilter rejects at the first such term
+    IO.println s!"spec {l.id} f=err:{c.getD "badoff"}"
   else if kind == "session" then
     -- every call on the shared parser must come out like the same call on a fresh parser
     IO.println s!"spec {l.id} shared={l.getD "fresh"} fresh={l.getD "fresh"}"
